@@ -68,6 +68,47 @@ EXC_KINDS = ("exc", "txsem", *BASE_KINDS)
 RAISING = ("exc", "type", "unknown", "txsem", *BASE_KINDS)
 # deterministic cycle used by C15 for the fault of the main tree: every second round an ordinary exception
 EXC_CYCLE = ("exc", "kbd", "exc", "exit", "txsem", "base", "exc", "genexit")
+# Truthiness of user class objects (class trait `falsy`): a user class may define __bool__ / __len__, its objects may be
+# falsy while the model is built and afterwards.  "bool": __bool__ -> False; "len": __len__ -> 0 (no __bool__);
+# "dyn": __bool__ decided from the object's last grammar attribute, read through the (instrumented) attribute access
+# (an empty Box / Model, an Item without value, a Ref without `more` is falsy; unreadable -> falsy)
+FALSY = ["bool", "len", "dyn"]
+# Equality of user class objects (class trait `eq`): "name": value equality by `name` and no __hash__ (the objects
+# are unhashable, like those of an eq-dataclass)
+EQS = ["name"]
+# What the match-rule processor of the root alternative `Val` returns (an immutable-model file, `convty`): the model
+# of such a load is that value.  The primitive python types, `None` (textX keeps the matched str), immutable
+# non-primitive values, falsy ones of either kind, and builtin containers (mutable and unhashable, but textX cannot
+# store its `_tx_*` attributes on them either: same path).
+CONV_TYPES = ["int", "str", "float", "bool", "none", "tuple", "frozenset", "decimal", "date", "bytes", "complex",
+              "fraction", "range", "namedtuple", "empty_tuple", "false", "zero_float", "empty_frozenset", "zero_decimal",
+              "list", "dict"]
+PRIMITIVE_CONV = ("int", "str", "float", "bool", "none", "false", "zero_float")
+
+
+def conv_value(ty, n):
+    """the python value a top-level `Val` processor returns for the matched number n"""
+    import collections
+    import datetime
+    import decimal
+    import fractions
+
+    if ty == "namedtuple":
+        return collections.namedtuple("Pair", "x y")(n, n + 1)
+    return {
+        "int": lambda: n, "str": lambda: f"v{n}", "float": lambda: n + 0.5, "bool": lambda: True, "none": lambda: None,
+        "tuple": lambda: (n, n + 1), "frozenset": lambda: frozenset([n]), "decimal": lambda: decimal.Decimal(n),
+        "date": lambda: datetime.date(2000, 1, 1) + datetime.timedelta(days=n), "bytes": lambda: str(n).encode(),
+        "complex": lambda: complex(n, 1), "fraction": lambda: fractions.Fraction(n, 7), "range": lambda: range(n),
+        "empty_tuple": lambda: (), "false": lambda: False, "zero_float": lambda: 0.0,
+        "empty_frozenset": lambda: frozenset(), "zero_decimal": lambda: decimal.Decimal(0),
+        "list": lambda: [n], "dict": lambda: {"v": n},
+    }[ty]()
+
+
+def is_tx_obj(model):
+    """a textX object (of a user or a generated class), not a match-rule value"""
+    return hasattr(type(model), "_tx_attrs")
 
 
 class HookError(Exception):
@@ -1243,8 +1284,22 @@ def gen_case(rng, fault_index=None, multi=None, exc_index=None):
     stream: the trees of a seed do not depend on them)."""
     case = gen_case0(rng, fault_index, multi)
     add_anns(case, rng.fork("ann"))
+    add_traits(case, rng.fork("traits"))
     set_exc_kinds(case, rng.fork("exc-kind"), exc_index)
     return case
+
+
+def add_traits(case, rng):
+    """Special methods of the user classes textX's own code may trip over (truthiness, equality / hashability) and the
+    python type of an immutable model; separate random stream, assigned after everything else."""
+    for c in case["classes"]:
+        if rng.chance(0.3):
+            c["falsy"] = rng.choice(FALSY)
+        if rng.chance(0.15):
+            c["eq"] = rng.choice(EQS)
+    for n0 in case["loads"]:
+        if n0.get("immut"):
+            n0["convty"] = rng.choice(CONV_TYPES)
 
 
 def set_exc_kinds(case, rng, exc_index=None):
